@@ -449,12 +449,9 @@ impl<'a, F: IVP> SolOut for DefaultSolOut<'a, F> {
                 }
             }
             
-            // Normal output: record endpoint (avoid duplicates). A duplicate is a point that
-            // differs from the last sample by rounding only; steps shorter than `tol` are
-            // real steps and are recorded.
-            let duplicate = self.t.last().map_or(false, |&last| {
-                (last - *x).abs() <= 4.0 * Float::EPSILON * last.abs().max(x.abs())
-            });
+            // Normal output: record endpoint (avoid duplicates). Only a repeated time is a
+            // duplicate; every accepted step, however short, is a reported interval.
+            let duplicate = self.t.last().map_or(false, |&last| last == *x);
             if !duplicate {
                 self.t.push(*x);
                 self.y.push(y.to_vec());
